@@ -153,6 +153,24 @@ public:
 				// distinguish instantiations of the enclosing function
 				if (const auto* DC = dyn_cast_or_null<FunctionDecl>(M->getParent()->getParentFunctionOrMethod()))
 					s += "@" + fnKey(DC);
+				// instantiations of a generic lambda's call operator are functions of their own
+				if (const TemplateArgumentList* TA = F->getTemplateSpecializationArgs()) {
+					s += "<";
+					bool firstA = true;
+					for (const TemplateArgument& A : TA->asArray()) {
+						if (!firstA)
+							s += ", ";
+						firstA = false;
+						if (A.getKind() == TemplateArgument::Type)
+							s += canonStr(A.getAsType());
+						else {
+							llvm::raw_string_ostream os(s);
+							A.print(PP, os, true);
+							os.flush();
+						}
+					}
+					s += ">";
+				}
 				return s;
 			}
 		}
@@ -247,6 +265,8 @@ public:
 		o["fid"] = fnKey(FD);
 		o["short"] = FD->getDeclName().getAsString();
 		if (const auto* M = dyn_cast<CXXMethodDecl>(FD)) {
+			if (M->getParent()->isLambda() && FD->getTemplateSpecializationArgs() && FD->hasBody())
+				LambdaQueue.push_back({FD, CurFn}); // instantiated call operator of a generic lambda: emit its body too
 			o["cls"] = qualName(M->getParent());
 			if (M->isVirtual())
 				o["vmeth"] = true;
